@@ -271,8 +271,12 @@ func run(c Case, k *ev.Case) *ev.Failure {
 		return ev.Failf("C18.6 hang", "%s did not return", h)
 	default:
 	}
-	// quiescence: all handed inbound messages read, all pings answered
-	deadline := time.Now().Add(2 * time.Second)
+	// quiescence: all handed inbound messages read, all pings answered. The first 2 s are the normal budget; when it is not
+	// reached by then the wait goes on for up to 20 s more, so that a starved process (machine under load) is told apart from a
+	// message that is really gone: reaching quiescence late is counted (timing_inconclusive), never reaching it is judged below.
+	start := time.Now()
+	deadline := start.Add(22 * time.Second)
+	reached := false
 	for time.Now().Before(deadline) {
 		w.mu.Lock()
 		handed, pings := len(w.handed), w.pings
@@ -287,24 +291,37 @@ func run(c Case, k *ev.Case) *ev.Failure {
 			cur = w.incs[len(w.incs)-1]
 		}
 		w.mu.Unlock()
-		if cur != nil { // the live connection still has inbound messages the library has not read yet
+		died := false
+		select {
+		case <-readDone:
+			died = true
+			deadline = time.Now()
+		default:
+		}
+		if cur != nil && !died {
+			// not quiescent while (a) the newest connection is broken, closed, about to break at its next read, or has not
+			// completed its handshake - a redial is in progress or about to start (closing the transport now would race with it:
+			// an earlier version did, and reported messages and pongs of the NEXT connection as lost under load) - or (b) the live
+			// connection still has inbound messages the library has not read yet
 			cur.mu.Lock()
-			pending := len(cur.inbound) > 0 && !cur.broken && !cur.closed && !(cur.plan.FailReadAt > 0 && cur.reads >= cur.plan.FailReadAt)
+			aboutToBreak := cur.plan.FailReadAt > 0 && cur.reads >= cur.plan.FailReadAt
+			unsettled := cur.broken || cur.closed || !cur.hsDone || aboutToBreak
+			pending := len(cur.inbound) > 0
 			cur.mu.Unlock()
-			if pending {
+			if unsettled || pending {
 				time.Sleep(200 * time.Microsecond)
 				continue
 			}
 		}
-		select {
-		case <-readDone:
-			deadline = time.Now()
-		default:
-		}
 		if len(got) >= handed && pongs >= pings {
+			reached = true
 			break
 		}
 		time.Sleep(time.Millisecond)
+	}
+	if reached && time.Since(start) > 2*time.Second {
+		k.Label("late-quiescence")
+		ev.TimingInconclusive()
 	}
 	diedByItself := false
 	select {
@@ -351,7 +368,12 @@ func run(c Case, k *ev.Case) *ev.Failure {
 		for _, x := range w.accepted {
 			a = append(a, fmt.Sprintf("%d:%s", x.inc, x.msg))
 		}
-		return map[string]any{"accepted": a, "handed": w.handed, "read": got, "writes": recs, "dials": len(w.dials), "dial_failed": w.dialErrs}
+		re := ""
+		if readErr != nil {
+			re = readErr.Error()
+		}
+		return map[string]any{"accepted": a, "handed": w.handed, "read": got, "writes": recs, "dials": len(w.dials), "dial_failed": w.dialErrs,
+			"read_error": re, "died_by_itself": diedByItself, "pings": w.pings}
 	}
 	// 1. exactly once / at most once
 	count := map[string]int{}
@@ -442,7 +464,7 @@ func run(c Case, k *ev.Case) *ev.Failure {
 		}
 	}
 	if len(got) < len(w.handed) && !exhausted && c.CloseAfter == 0 && !isExhaustErr(readErr) {
-		return ev.Failf("C18.4 reads-lost", "the connections delivered %d messages but Read returned only %d before Close (2 s grace): missing %v", len(w.handed), len(got), w.handed[len(got):]).WithHistory(hist())
+		return ev.Failf("C18.4 reads-lost", "the connections delivered %d messages but Read returned only %d before Close (22 s grace): missing %v", len(w.handed), len(got), w.handed[len(got):]).WithHistory(hist())
 	}
 	for _, g := range got {
 		if g == "ping" || g == "reconnect-handshake" {
@@ -455,7 +477,7 @@ func run(c Case, k *ev.Case) *ev.Failure {
 		return ev.Failf("C18.5 pong", "%d pongs written for %d pings", pongs, w.pings).WithHistory(hist())
 	}
 	if pongs < w.pings && !exhausted && c.CloseAfter == 0 && !isExhaustErr(readErr) {
-		return ev.Failf("C18.5 pong", "%d control pings were read but only %d pongs were written (2 s grace)", w.pings, pongs).WithHistory(hist())
+		return ev.Failf("C18.5 pong", "%d control pings were read but only %d pongs were written (22 s grace)", w.pings, pongs).WithHistory(hist())
 	}
 	// classification
 	fails := 0
